@@ -16,7 +16,7 @@ oracle:         the FULL FAULT MATRIX on the real code (both tiers, complete): X
                 contain the expansion token or the canary token; the canary file / URL must never be opened
                 (sys audit hook + patched urllib.request.urlopen / socket connect).
 """
-import io, os, sys, zipfile, tempfile, shutil, json, contextlib
+import io, os, re, sys, zipfile, tempfile, shutil, json, contextlib
 from common import enc_str, dec_str, InfraError, REPO
 
 # --------------------------------------------------------------------------------------------------
@@ -235,9 +235,10 @@ def inject(text, kind, tok, layout='default'):
     dt, tr, ar = injection(kind, tok)
     assert text.startswith(DECL)
     decl = DECL.rstrip(u'\n')
-    if layout == 'qgt-in-attr':
-        ar = ar + u'?>'
     body = text[len(DECL):].replace(TXT, tr).replace(ATT, ar)
+    if layout == 'qgt-in-attr':
+        assert u'version="1.2"' in body
+        body = body.replace(u'version="1.2"', u'version="1.2?>"', 1)       # `?>` inside an attribute value of the root element
     if layout == 'default':
         return decl + u'\n' + dt + body
     if layout in ('oneline', 'qgt-in-attr'):
@@ -305,14 +306,21 @@ class PrepCheck(object):
             out = u'raised %r' % (e,)
         self.chk.corr()
         self.chk.count('prep-text')
+        # (1) nothing is deleted or rewritten: the input is a subsequence of the output (insertions only);
+        # (2) every `<!DOCTYPE ... >` / `<!ENTITY ... >` declaration of the input stands in the output, character for
+        #     character, as often as before;  (3) with a well-behaved prolog the whole text is unchanged
+        it = iter(out)
+        insert_only = all(ch in it for ch in text)
         root = text.index(u'<office:document-')
-        prolog = text[:root]
-        if out[:len(prolog)] != prolog or out != text:
+        decls = [d for d in re.findall(u'<!DOCTYPE[^\\[>]*(?:\\[.*?\\]\\s*)?>|<!ENTITY[^>]*>', text[:root], re.S)]
+        kept = all(out.count(d) == text.count(d) for d in decls)
+        plain = (u'<x' not in text[:root])
+        if not insert_only or not kept or (plain and out != text):
             self.bad += 1
             i = next((j for j in range(min(len(out), len(text))) if out[j] != text[j]), min(len(out), len(text)))
             self.chk.corr_diff(case, out[max(0, i - 40):i + 80], text[max(0, i - 40):i + 80],
                                'text pre-processing (%s) must hand the member on with its prolog (DOCTYPE) unchanged; first '
-                               'difference at character %d, prolog is %d characters' % ('+'.join(n for n, _ in self.fns), i, len(prolog)))
+                               'difference at character %d, prolog is %d characters' % ('+'.join(n for n, _ in self.fns), i, root))
 
 
 # --------------------------------------------------------------------------------------------------
@@ -731,6 +739,9 @@ def run(chk, replay=None):
     chk.rule = ('every cell of: %d XML members (5 top level, 4 in "Object 1/", 4 in further / long-named / nested sub-documents, and 3 members load() must not parse) x %d injection kinds '
                 'x %d entry points, plus controls (clean, bare DOCTYPE) and a not-well-formed probe per (entry point, member); '
                 'non-trivial = the entry point really parses the member' % (len(XML_MEMBERS), len(KINDS), len(EPS)))
+    if replay is not None and 'input' not in replay:
+        print('replay: this file records a broken obligation / correspondence without a failing input; run ./check C13')
+        return 1
     if replay is not None and replay['input']['member'] not in XML_MEMBERS:
         # a cell of the object-path sweep: rebuild the package from the member path
         c = replay['input']
